@@ -98,6 +98,15 @@ def containsUncatchable : GoErr → Bool
   | interrupted _ | interruptedE _ _ | stackOverflow _ => true
   | _ => false
 
+/-- The *InterruptedError raised by vm.run inside this error tree, if any.  Only vm.run can make an InterruptedError
+with a non-nil `iface` (the field is unexported), and it does so exactly when the runtime's interrupt flag is set;
+the flag stays set until leaveAbrupt / ClearInterrupt.  So `liveInterrupt e = some i` means: the flag is set. -/
+def liveInterrupt : GoErr → Option GoErr
+  | interruptedE i f => some (interruptedE i f)
+  | wrap _ inner => liveInterrupt inner
+  | join _ a b => match liveInterrupt a with | some i => some i | none => liveInterrupt b
+  | _ => none
+
 /-- `errors.Is(e, target)` with target identified by id (pointer identity; no custom Is methods in scope). -/
 def errIs : GoErr → Nat → Bool
   | wrap i inner, t => i == t || errIs inner t
@@ -297,6 +306,8 @@ A JS-level exception in flight inside a run loop is `panic (.exc ex)`. -/
 inductive Flow where
   | normal
   | panic (x : Pv) (o : StackTop)
+  | pending (e : GoErr)       -- returned normally to NATIVE code while the interrupt flag is set: vm.run raises `e`
+                              -- (a new *InterruptedError with the same iface) at the next script instruction (vm.go run loop)
   deriving DecidableEq, Repr, Inhabited
 
 inductive TryRes where
@@ -305,6 +316,7 @@ inductive TryRes where
 
 /-- vm.try (vm.go:854): marker frame, recover → handleThrow. -/
 def vmTry : Flow → TryRes
+  | .pending e => .panic (.goErr e) .other     -- the function run under vm.try is script code here: the interrupt fires in it
   | .normal => .ok
   | .panic x o =>
     match handleThrow o x [.marker] with
@@ -313,6 +325,7 @@ def vmTry : Flow → TryRes
 
 /-- baseJsFuncObject.__call + _call (func.go:397,449): marker frame, runTryInner's recover → handleThrow; `_call` panics ex. -/
 def jsCall : Flow → Flow
+  | .pending e => .panic (.goErr e) .other     -- a JS callee: the interrupt fires before it returns
   | .normal => .normal
   | .panic x o =>
     match handleThrow o x [.marker] with
@@ -348,6 +361,7 @@ def runProgram (fl : Flow) : CallRes :=
   | .panic x o => recoverUncatchable x o
 where
   handleThrowOpt : Flow → TryRes
+    | .pending e => .panic (.goErr e) .other   -- the program is script code: the interrupt fires in it
     | .normal => .ok
     | .panic x o =>
       match handleThrow o x [.marker] with
@@ -440,6 +454,7 @@ inductive Frame where
   | jit          -- JS `for (x of it) next()` over an iterator whose return() method itself throws
   | jy | jyf     -- generator delegating with `yield*` to a generator whose body calls next; jyf: the yield* is inside try/finally
   | fcs          -- native FunctionCall that ignores the Callable's error (swallows it) and returns normally
+  | tg           -- native FunctionCall doing `ex := r.Try(func(){ obj.Get("x") })` on an accessor whose getter is next; panic(ex)
   | pr           -- Promise.resolve().then(next): the rest runs as a promise job
   | jaw          -- async function: `await null; next()`: the rest runs as a promise job
   deriving DecidableEq, Repr, Inhabited
@@ -480,6 +495,7 @@ structure LogE where
 
 /-- A JS function `function(){ try { next() } catch(e){ log; [throw e] } finally { log } }` under handleThrow. -/
 def jsFrame (idx : Nat) (k : JsKind) : Flow → Flow × List LogE
+  | .pending e => (.panic (.goErr e) .other, [])                     -- fires at the instruction after the call: uncatchable
   | .normal => (.normal, if k.hasFinally then [⟨idx, .fin⟩] else [])
   | .panic x o =>
     match handleThrow o x [.js k.hasCatch k.hasFinally, .marker] with
@@ -506,7 +522,7 @@ def jsFrame (idx : Nat) (k : JsKind) : Flow → Flow × List LogE
 def shim (fl : Flow) : Flow := (jsFrame 0 .j0 fl).1
 
 /-- One frame: `cjs` says whether the callee's function object is a JS function. -/
-def applyFrame (idx : Nat) (f : Frame) (cjs : Bool) (fl : Flow) : Flow × List LogE :=
+def applyFrameCore (idx : Nat) (f : Frame) (cjs : Bool) (fl : Flow) : Flow × List LogE :=
   match f with
   | .js k => jsFrame idx k fl
   | .fc => (panicErr (callable cjs fl), [])                              -- func(FunctionCall) Value
@@ -528,6 +544,7 @@ def applyFrame (idx : Nat) (f : Frame) (cjs : Bool) (fl : Flow) : Flow × List L
   | .rfw => (returnWrapped (callable cjs fl), [])                         -- return fmt.Errorf("%w", err)
   | .ji =>                                                               -- handleThrow → _restoreStacks(…, ex != nil) (vm.go)
     (match fl with
+      | .pending e => (.panic (.goErr e) .other, [])
       | .normal => (.normal, [])                                         -- iterator exhausted: no return()
       | .panic x o =>
         match handleThrow o x [.marker] with
@@ -537,6 +554,7 @@ def applyFrame (idx : Nat) (f : Frame) (cjs : Bool) (fl : Flow) : Flow × List L
   | .jgf => ((jsCall (jsFrame idx .jf fl).1), (jsFrame idx .jf fl).2)
   | .ja =>                                                               -- asyncRunner.start/step: ex → promiseCap.reject(ex.val)
     (match fl with
+      | .pending e => (.panic (.goErr e) .other, [])
       | .normal => (.normal, [])
       | .panic x o =>
         match handleThrow o x [.marker] with
@@ -549,6 +567,7 @@ def applyFrame (idx : Nat) (f : Frame) (cjs : Bool) (fl : Flow) : Flow × List L
       | .panic x o => (.panic x o, []))                                  -- vm.try re-panics what is not a JS exception
   | .jit =>                                                              -- like ji; the exception thrown by return() during unwinding
     (match fl with                                                       --   is discarded: `_ = vm._restoreStacks(..)` (vm.go handleThrow)
+      | .pending e => (.panic (.goErr e) .other, [])
       | .normal => (.normal, [])
       | .panic x o =>
         match handleThrow o x [.marker] with
@@ -564,9 +583,16 @@ def applyFrame (idx : Nat) (f : Frame) (cjs : Bool) (fl : Flow) : Flow × List L
       | .ok => ((jsFrame idx .jf .normal).1, (jsFrame idx .jf .normal).2)
       | .ex e => (jsCall (jsFrame idx .jf (.panic (.exc e) .other)).1, (jsFrame idx .jf (.panic (.exc e) .other)).2)
       | .panic x o => (.panic x o, []))
+  | .tg =>                                                               -- Runtime.Try (runtime.go) = vm.try + a deferred recover that
+    (match vmTry (invoke cjs fl) with                                    --   re-panics what is not a JS exception; the frame panics ex
+      | .ok => .normal
+      | .ex e => .panic (.exc e) .other
+      | .panic x o => .panic x o, [])
   | .fcs =>                                                              -- `_, _ = fn(undefined)`: the error value is dropped
     (match callable cjs fl with
       | .panic x o => (.panic x o, [])
+      | .err (.go e) =>                                                  -- the error is dropped, not the interrupt FLAG
+        (match e.liveInterrupt with | some i => .pending i | none => .normal, [])
       | _ => (.normal, []))
   | .pr => (fl, [])                                                      -- never applied (segments are split at pr / jaw)
   | .jaw => (fl, [])
@@ -578,6 +604,19 @@ def fotPrefix (idx : Nat) (cjs : Bool) (fl : Flow) : Flow × List LogE :=
   | .ok => (.normal, [])
   | .ex _ => (.panic (.exc ⟨.freshErr .error .other, .other⟩) .other, [⟨idx, .iterReturn⟩])
   | .panic x o => (.panic x o, [])
+
+/-- Frames made of Go code only between the return of their callee and their own return: an interrupt pending at
+that moment stays pending.  Every other frame runs script code first (the JS function itself, a JS shim, the
+iterator's next(), the nested program), where vm.run raises it. -/
+def Frame.pureNative : Frame → Bool
+  | .fc | .rfe | .rfn | .xfe | .xfn | .fcv | .rfw | .fcs | .gt | .tg => true
+  | _ => false
+
+/-- One frame, including the sticky interrupt flag. -/
+def applyFrame (idx : Nat) (f : Frame) (cjs : Bool) (fl : Flow) : Flow × List LogE :=
+  match fl with
+  | .pending e => if f.pureNative then (.pending e, []) else applyFrameCore idx f cjs (.panic (.goErr e) .other)
+  | fl => applyFrameCore idx f cjs fl
 
 /-! ## Payloads (the innermost function) -/
 
@@ -695,6 +734,8 @@ def ranLeave : CallRes → Bool
 
 /-- The synchronous part of the outermost call, up to (not including) `leave()`. -/
 def firstCall (entry : Entry) (headJS : Bool) (fl : Flow) : CallRes :=
+  -- (a pending interrupt reaching a Callable / exported entry fires in the JS trampoline through which the harness
+  --  enters chains that contain an error-swallowing native frame; a direct native entry is not modelled)
   match entry with
   | .runString => runProgram fl            -- the top-level script calls the chain: JS → callee
   | .callable => callable headJS fl
